@@ -148,9 +148,9 @@ def tlc_run(name, root, consts, inv=(), prop=(), view=None, constraint=None, act
 # ---------------------------------------------------------------------------------------------
 # replaying rows on the code
 # ---------------------------------------------------------------------------------------------
-def replay_rows(binpath, rows_file, ptype, coll="map", ctx="plain", max_mismatch=40, timeout=900, extra=()):
+def replay_rows(binpath, rows_file, ptype, coll="map", ctx="plain", max_mismatch=40, timeout=900, extra=(), cmdname="replay"):
     out = os.path.join(WORK, f"rep_{os.path.basename(os.path.dirname(rows_file))}_{ptype}_{coll}_{ctx.replace(':','')}.json")
-    cmd = [binpath, "replay", "--type", ptype, "--coll", coll, "--ctx", ctx, "--rows", rows_file,
+    cmd = [binpath, cmdname, "--type", ptype, "--coll", coll, "--ctx", ctx, "--rows", rows_file,
            "--out", out, "--max-mismatch", str(max_mismatch)] + list(extra)
     t0 = time.time()
     try:
@@ -181,10 +181,53 @@ RET_OWNER = {
 MUT_TRAVERSALS = {"GetMut", "LpmMut", "IterMut", "ValuesMut", "ChildrenMut", "ViewValueMut", "ViewIterMut"}
 
 
+PAIR_OWNER = {"Union": "C05", "UnionMut": "C05", "Inter": "C06", "InterMut": "C06", "Diff": "C07", "DiffMut": "C07",
+              "CovDiff": "C07", "CovDiffMut": "C07", "Eq": "C19"}
+
+
+def _core_items(act, ret):
+    """the part of a set-operation result that the selection property owns (no LPM annotations)"""
+    try:
+        items = ret[0]
+        if act == "Union":
+            out = []
+            for it in items:
+                own_l = it["l"][0]["v"] if it["k"] in ("L", "B") else None
+                own_r = it["r"][0]["v"] if it["k"] in ("R", "B") else None
+                out.append([it["k"], it["p"]["n"], own_l, own_r])
+            return out
+        if act in ("Diff", "DiffMut"):
+            return [[it["p"]["n"], it["v"]] for it in items]
+    except Exception:
+        return None
+    return None
+
+
+def pair_owners(mm):
+    act = mm["e"].get("a", "?")
+    o = set()
+    if mm["kind"] == "pan":
+        return {"C20", PAIR_OWNER.get(act, "C05")}
+    base = PAIR_OWNER.get(act, "C05")
+    if act in ("Union", "Diff", "DiffMut"):
+        ce, cg = _core_items(act, mm.get("expected")), _core_items(act, mm.get("got"))
+        if ce is not None and cg is not None and ce == cg:
+            o.add("C08")          # only the LPM annotations (or representations) differ
+        else:
+            o.add(base)
+    else:
+        o.add(base)
+    if act.endswith("Mut"):
+        o.add("C13")
+    return o
+
+
 def owners(mm):
     """Set of properties that own mismatch record `mm` (kind, event)."""
     kind = mm["kind"]
     act = mm["e"].get("a", "?")
+    if act in PAIR_OWNER:
+        return pair_owners(mm)
     if kind == "pre":
         return {"C01"}
     if kind == "ret":
